@@ -21,6 +21,14 @@ CHECKS = {
    text="On every outermost validate(inplace=False) of generated workloads (all parsing options x pass / eager fail / lazy fail x DataFrameSchema, SeriesSchema, Column, Index, MultiIndex, polars DataFrameSchema and Column on DataFrame and LazyFrame) the argument is snapshotted bit-for-bit before and after, including when it is a column-subset view, row-slice view or a Series taken from a frame; the result's container kind must equal the argument's.",
    note="Snapshot covers labels, order, dtypes, raw value bytes / typed cell reprs, index values/dtype/names, Series name; polars by schema + cell values. pandas attrs/flags are not compared.",
    ref="4/C04"),
+ "C05": dict(cat="exploration", tech="history monitor: structural fingerprint + equality + probe-frame verdict vector of one schema object after every operation of a generated history of public operations",
+   text="For generated schemas (pandas DataFrameSchema/SeriesSchema/Column, model-backed cached schemas, polars schemas and models) a generated history of 4-12 non-transforming public operations (validate pass / eager fail / lazy fail / subsampled, coerce, to_yaml/json/script, statistics, strategy/example, str/repr/==, deepcopy/pickle, transforming methods watched on the receiver) is executed on ONE schema object; after every operation the structural fingerprint and == against a snapshot are compared, and periodically the verdict vector on probe frames is compared with a pristine twin.",
+   note="Fingerprint walks __dict__ of every pandera object reachable from the schema (pvm/fingerprint.py); module-global state only seen through verdicts; histories <= 12 ops; model index fields unreachable in this sandbox.",
+   ref="4/C05"),
+ "C07": dict(cat="exploration", tech="deterministic thread scheduler on sys.monitoring LINE events (token hand-over between pandera statements) + per-thread outcome oracle vs solo run + config/schema fingerprints after join",
+   text="2-3 threads run real validate calls (shared pandas schema with coerce / frame dtype / regex columns, different schemas, polars DataFrame and LazyFrame, polars validate beside a user config_context, first use of a DataFrameModel, first use of the backend registry) under a scheduler that preempts only between two Python statements of pandera code: systematic single preemption in both directions, a grid of double preemptions and seeded random switching; every thread's outcome must equal its solo outcome bit-for-bit and config context, CONFIG and every schema fingerprint after join must equal those before. The evidence lists distinct executed interleavings and yield points.",
+   note="Preemption points are a subset of real GIL switch points (no impossible interleaving); races inside a single pandas/polars call are not explored; 2-3 threads, frames <= 5 rows.",
+   ref="4/C07"),
  "C11": dict(cat="exploration", tech="reference-model oracle over row identities of the real validate(lazy=True) output; docs examples executed",
    text="Rows carry a hidden identity (unique int / string / MultiIndex labels; content+order on polars); after the real validate with drop_invalid_rows=True the surviving identities and values are compared with the rows on which the reference model finds every row-level constraint satisfied, in order; cases with a non-row violation must raise SchemaErrors (never return, never TypeError). The four examples of docs/source/drop_invalid_rows.md run as fixed cases.",
    note="Unique non-null index labels (documented limitation); exact coercion only (int/float/datetime retyping); SeriesSchema with a failing index schema not judged; trusts pvm/model.py.",
